@@ -15,7 +15,7 @@ is the original shape (tag `verif-base`) and is used only by the witness example
 | `internal/context.go` `pxContext.Fork` (+ `clone`)                     | `forkCtx`                 |
 | `internal/context.go` `DoWithLoader`                                   | `exec … (.doloader p)`    |
 | `internal/context.go` `Get`, `Set`, `StackPush`, `Stack`, `DefiningLoader` | `Prog.get/.set/.push/.obs`, head of `Ctx.loader` |
-| `internal/runtime.go` `Do`, `doWithRoot`, `DoWithParent` (px.Context parent) | `doDo`              |
+| `internal/runtime.go` `Do`, `Try`, `doWithRoot`, `DoWithParent`/`TryWithParent` (px.Context parent) | `doDo`, `doParent` |
 | `internal/runtime.go` `RootContext` + original `Do`                    | `doDo .before`            |
 | `loader/loader.go` `load`, `parentedLoader.LoadEntry`, `basicLoader.SetEntry` | `loadEntry`, `setEntry`, `Prog.load`, `Prog.deftype` |
 
@@ -66,6 +66,7 @@ inductive Prog where
   | leaf (l : Leaf)
   | doctx (id : Nat) (p : Prog)       -- harness: x := c.Fork(); x.Set(tag,id);  px.DoWithContext(x, p)
   | dodo (id : Nat) (p : Prog)        -- pcore.Do(func(c){ harness: c.Set(tag,id); p })
+  | dotry (id : Nat) (p : Prog)       -- pcore.Try(func(c) error { harness: c.Set(tag,id); p; return nil })
   | doloader (p : Prog)               -- harness: l := NewParentedLoader(c.Loader());  c.DoWithLoader(l, p)
   | fork (p : Prog)                   -- px.Fork(c, p)
   | go (p : Prog)                     -- px.Go(p)
@@ -82,7 +83,7 @@ inductive Prog where
 @[match_pattern] abbrev Prog.panic : Prog := .leaf .panic
 
 def Prog.size : Prog → Nat
-  | .doctx _ p => p.size + 1 | .dodo _ p => p.size + 1 | .doloader p => p.size + 1
+  | .doctx _ p => p.size + 1 | .dodo _ p => p.size + 1 | .dotry _ p => p.size + 1 | .doloader p => p.size + 1
   | .fork p => p.size + 1 | .go p => p.size + 1 | .recover p => p.size + 1
   | .seq p q => p.size + q.size + 1
   | _ => 1
@@ -241,24 +242,28 @@ def doWithContext (v : Ver) (g : Gid) (cx : CtxId) (body : World → Outcome × 
       let r := body (note g cx w2)
       (r.1, if v = .now then tlCleanup g r.2 else r.2)
 
-/-- `pcore.Do` on goroutine `g`.
-    now:    `doWithRoot(func(root){ DoWithParent(root, actor) })`, `DoWithParent` = `DoWithContext(root.Fork(), actor)`
+/-- `DoWithParent(root, actor)` with a `px.Context` parent = `DoWithContext(root.Fork(), actor)`; with `ctch` it is
+    `TryWithParent(root, actor)`: a deferred `recover()` around it turns a panic (error or string) into the returned
+    error (harness: logged as a recovered panic) -/
+def doParent (v : Ver) (g : Gid) (id : Nat) (ctch : Bool) (body : CtxId → World → Outcome × World) (root : CtxId)
+    (w : World) : Outcome × World :=
+  let r := doWithContext v g (forkCtx root w).1
+    (fun w4 => body (forkCtx root w).1 (setVar (forkCtx root w).1 tagKey id w4)) (forkCtx root w).2
+  if ctch = true ∧ r.1 = .panicked then (.normal, emit g .recovered r.2) else r
+
+/-- `pcore.Do` (`ctch = false`) / `pcore.Try` (`ctch = true`) on goroutine `g`.
+    now:    `doWithRoot(func(root){ DoWithParent(root, actor) })`, `doWithRoot` = `DoWithContext(new root, …)`
     before: `DoWithParent(RootContext(), actor)` where `RootContext` does `Init(); Set(key, root)` on the caller -/
-def doDo (v : Ver) (g : Gid) (id : Nat) (body : CtxId → World → Outcome × World) (w : World) : Outcome × World :=
+def doDo (v : Ver) (g : Gid) (id : Nat) (ctch : Bool) (body : CtxId → World → Outcome × World) (w : World) : Outcome × World :=
   let root := (newCtx { loader := [0] } w).1
   let w1 := (newCtx { loader := [0] } w).2
   match v with
-  | .now =>
-    doWithContext v g root (fun w2 =>
-      doWithContext v g (forkCtx root w2).1
-        (fun w4 => body (forkCtx root w2).1 (setVar (forkCtx root w2).1 tagKey id w4)) (forkCtx root w2).2) w1
+  | .now => doWithContext v g root (doParent v g id ctch body root) w1
   | .before =>
     let w2 := tlInit g w1
     match tlSet g ctxKey root w2 with
     | none => (.panicked, w2)
-    | some w3 =>
-      let fc := forkCtx root (note g root w3)
-      doWithContext v g fc.1 (fun w5 => body fc.1 (setVar fc.1 tagKey id w5)) fc.2
+    | some w3 => doParent v g id ctch body root (note g root w3)
 
 /-! ## goroutines -/
 
@@ -335,7 +340,9 @@ def exec (v : Ver) : Nat → Prog → Gid → CtxId → World → Outcome × Wor
       let fc := forkCtx c w
       doWithContext v g fc.1 (fun w2 => exec v f p g fc.1 w2) (setVar fc.1 tagKey id fc.2)
     | .dodo id p =>
-      doDo v g id (fun cx w1 => exec v f p g cx w1) w
+      doDo v g id false (fun cx w1 => exec v f p g cx w1) w
+    | .dotry id p =>
+      doDo v g id true (fun cx w1 => exec v f p g cx w1) w
     | .doloader p =>
       let save := (w.ctxs c).loader
       let nl := newLoader w
